@@ -100,6 +100,13 @@ async fn persist_changes(
   })?;
   // Must be dropped since `write_stronghold_snapshot` requires the stronghold instance.
   drop(stronghold);
+  #[cfg(identity_rs_verif)]
+  if crate::verif_hooks::snapshot_write_fails() {
+    return Err(
+      KeyIdStorageError::new(KeyIdStorageErrorKind::Unspecified)
+        .with_custom_message("writing to stronghold snapshot failed (injected)"),
+    );
+  }
   match secret_manager.as_secret_manager() {
     iota_sdk::client::secret::SecretManager::Stronghold(stronghold_manager) => {
       stronghold_manager
